@@ -126,6 +126,33 @@ class Names:
         return rng.choice(self.lifetimes)
 
 
+class PairNames:
+    """fields named x, <p>x, <p><p>x, y, <p>y ...: every variant holds a name next to its prefixed forms"""
+
+    def __init__(self, prefix):
+        self.prefix = prefix
+        self.i = 0
+
+    def field(self, rng):
+        seq = ["x", self.prefix + "x", self.prefix * 2 + "x", "y", self.prefix + "y", self.prefix * 2 + "y", "z"]
+        n = seq[self.i % len(seq)]
+        self.i += 1
+        return n
+
+    def variants(self, rng, n):
+        self.i = 0
+        return ["V%d" % i for i in range(n)]
+
+    def type_param(self, rng):
+        return "G"
+
+    def const_param(self, rng):
+        return "N"
+
+    def lifetime(self, rng):
+        return "'a"
+
+
 SHADOW_TYPES = ["Option", "Some", "None", "Result", "Ok", "Err", "Ordering", "Equal", "Less", "Greater", "Formatter",
                 "PhantomData", "Box", "Vec", "String", "Hasher", "Arguments"]
 SHADOW_TRAITS = ["Clone", "Copy", "Default", "Debug", "Hash", "PartialEq", "Eq", "PartialOrd", "Ord", "Into", "From",
@@ -257,6 +284,22 @@ def collect_cases(seed, n, cap):
         c.cid_orig = c.cid
         c.tag, c.judge = tag, j
         cases.append(c)
+    # directed pairs: every template prefix (with and without its leading underscore) x every workload
+    names = G.DEFAULT_NAMES
+    k = 200000
+    try:
+        for rep in range(2):
+            for pre in names.prefixes:
+                for tag, g, j, with_cap in gens[:5]:
+                    G.DEFAULT_NAMES = PairNames(pre)
+                    c = g(seed * 7919 + 17 + rep, k, cap)
+                    if re.search(r"\b(fn|r#|type|match|loop|struct)\b", "") is None:
+                        pass
+                    c.tag, c.judge = tag, j
+                    cases.append(c)
+                    k += 1
+    finally:
+        G.DEFAULT_NAMES = names
     return cases
 
 
